@@ -349,7 +349,7 @@ var failFileRe = regexp.MustCompile(`-rapid\.failfile="([^"]+)"`)
 // RunWorld executes the world's test binary.
 func (e *Engine) RunWorld(res *worldResult, checks int, seed uint64, failfile string) error {
 	stats := filepath.Join(res.Dir, "stats.json")
-	args := []string{"-test.run", "TestSim", "-test.timeout", "30m", fmt.Sprintf("-rapid.checks=%d", checks), fmt.Sprintf("-rapid.seed=%d", seed%1000000007+1), "-rapid.nofailfile=false"}
+	args := []string{"-test.run", "TestSim", "-test.timeout", "3h", fmt.Sprintf("-rapid.checks=%d", checks), fmt.Sprintf("-rapid.seed=%d", seed%1000000007+1), "-rapid.nofailfile=false"}
 	if failfile != "" {
 		args = []string{"-test.run", "TestSim", "-rapid.failfile=" + failfile}
 	}
@@ -412,8 +412,12 @@ func classify(prop, output string) (string, string) {
 		}
 		return m[2], m[0]
 	}
-	if strings.Contains(output, "panic") {
-		return "panic", firstLines(output, 6)
+	if strings.Contains(output, "test timed out") {
+		// a watchdog is infrastructure trouble, never a violation
+		return "harness-failure", "world binary timed out:\n" + firstLines(output, 6)
+	}
+	if strings.Contains(output, "fatal error: concurrent map") {
+		return "concurrent-map-access", "the Go runtime aborted with a concurrent map access inside generated code:\n" + firstLines(output, 8)
 	}
 	return "harness-failure", firstLines(output, 12)
 }
@@ -448,7 +452,7 @@ func Check(id, tier string, seed uint64, repo, vd string) (*gensim.Outcome, erro
 		nWorlds, checks = 40, 50
 	}
 	if tier == "thorough" {
-		nWorlds, checks, cold = 320, 1600, 100
+		nWorlds, checks, cold = 320, 900, 60
 		if id == "C07" {
 			checks = 300
 		}
